@@ -311,8 +311,9 @@ def run(rep, repo, tier):
                 "inside the declared code set %r: the stochastic rounding "
                 "does not act on the code index with precision 1 "
                 "(forward: %s)" % (got, codes, show(ft, 240)), loc=loc,
-                instance=cfg, facts={"config": cfg, "got": repr(got),
-                                     "want": repr(codes)})
+                instance=cfg, observed=repr(got),
+                facts={"config": cfg, "got": repr(got),
+                       "want": repr(codes)})
       if n % 97 == 1:
         rep.sample({"config": cfg, "train_value_set": repr(got),
                     "declared": repr(codes)})
